@@ -122,9 +122,11 @@ def history_case(draw, max_steps):
 PARTS = {"history": check_history}
 
 
+HYP = {"history": (lambda ctx: history_case(6 if ctx.tier == "quick" else 12), check_history)}
+
 def run(ctx):
     quick = ctx.tier == "quick"
-    ctx.hyp(history_case(6 if quick else 12), lambda c: check_history(ctx, c), 1500 if quick else 30000, salt=1)
+    ctx.hyp_sharded("history", 6000 if quick else 60000, salt=1)
     try:
         from props import c17
     except ImportError:
